@@ -36,6 +36,7 @@ from .values import (
     EngineError,
     FuncRef,
     Lambda,
+    FrameEscape,
     ModuleRef,
     OutOfReach,
     PathEnd,
@@ -445,6 +446,9 @@ class Interp:
             if g[name]["k"] in ("dict", "list") and name not in self.registry.constant_globals and not name.startswith("__"):
                 # a module-level mutable container that is not one of the constant tables of the reference tree: the
                 # function's result may depend on what earlier calls left there (frame condition, reported by the driver)
+                self.mutable_globals.add(f"{module}.{name}")
+            if g[name]["k"] == "other" and str(g[name].get("repr", "")).startswith("<dpapi_ng.") and name not in self.registry.constant_globals and not name.startswith("__"):
+                # a module-level object instance (a pool, a cache, a client): shared mutable state as well
                 self.mutable_globals.add(f"{module}.{name}")
             return self.from_dump(g[name])
         if hasattr(_pybuiltins, name):
@@ -859,7 +863,7 @@ class Interp:
                 return self.from_dump(a)
             if name == "_fields" and obj.cls.namedtuple:
                 return tuple(obj.cls.namedtuple["fields"])
-            raise OutOfReach(f"attribute {name} of {obj!r} is not part of the object model of the contract")
+            raise FrameEscape(f"attribute {name} of {obj!r} is not a declared field of the object: state outside the frame of the contract")
         if isinstance(obj, ClassRef):
             cls = obj.cls
             if cls.enum:
@@ -896,6 +900,13 @@ class Interp:
                 return ModuleRef(full)
             if obj.name in self.P.module_ast:
                 return self.lookup_global(obj.name, name)
+            if obj.name in ("socket", "errno", "ssl", "select") and name.isupper():
+                # integer constants of the platform (same kernel ABI for both interpreters)
+                import importlib
+
+                cv = getattr(importlib.import_module(obj.name), name, None)
+                if isinstance(cv, int) and not isinstance(cv, bool):
+                    return int(cv)
             return Builtin(full)
         if isinstance(obj, Builtin):
             return Builtin(f"{obj.name}.{name}", bound=obj.bound)
@@ -1186,6 +1197,8 @@ class Interp:
             raise OutOfReach("call depth")
         for dec in fi.node.decorator_list:
             dn = ast.unparse(dec)
+            if dn.split("(")[0] in ("functools.lru_cache", "functools.cache", "lru_cache", "cache", "functools.cached_property", "cached_property"):
+                raise FrameEscape(f"@{dn} on {fi.dotted} memoises results across calls: the value returned depends on the call history")
             if dn not in ("classmethod", "staticmethod", "property"):
                 raise OutOfReach(f"decorator @{dn} on {fi.dotted} is outside the supported subset (its effect on the function is not modelled)")
         menv = Env(fi.module, closure_env)
